@@ -29,6 +29,13 @@ def catalogue():
         "P3": pb.PEL(pb.LP(), pb.ED(b"\x0A\x0B\x0C", comp=0x4321), pb.OTHER("DH", b"\xDE\xAD"), pb.OTHER("ZZ", b"\x01")),
         "P4": pb.PEL(pb.SRC(), pb.SRC(sid="SS", flags=1, callouts=_co()), pb.UD(b'{"a": 1}\0\0\0\0', sub=1),
                      pb.UD(b"line one\nline two\0\0\0", sub=3)),
+        # every content-driven section type once as the LAST section (its tail is the end of the file)
+        "P5": pb.PEL(pb.SRC(), pb.LP(targets=(0x0011, 0x0022, 0x0033))),
+        "P6": pb.PEL(pb.SRC(), pb.EH()),
+        "P7": pb.PEL(pb.MT(), pb.SRC(flags=1, callouts=_co())),
+        # a section served by a shipped parser module (hardware-diagnostics signature list, 2 signatures)
+        "P8": pb.PEL(pb.SRC(), pb.UD(bytes.fromhex("00000002" "20da0020" "00070301" "ab120104" "20da0020" "00080302" "00ff0105"),
+                                       sub=1, comp=0xE500)),
     }
 
 
@@ -57,7 +64,8 @@ CORR = _win("P0", 0, 72) + _win("P1", 72, LENS["P1"]) + _win("P2", 152, LENS["P2
 CORR_OPT = ["P0:0-8", "P0:48-56", "P1:72-80", "P2:152-156", "P2:156-157", "P3:72-80", "P3:80-88"]
 CORR = [c for c in CORR if c != "P2:152-160"] + ["P2:152-156", "P2:156-157", "P2:157-158", "P2:158-159", "P2:159-160"]
 QUICK_CORR = ["P0:48-56", "P1:72-80", "P2:152-156", "P2:156-157", "P2:157-158", "P3:80-88", "P3:96-104"]
-QUICK_TRUNC = [c for c in TRUNC if c.startswith("P0:")] + ["P2:64-96", "P2:128-160", "P2:224-256", "P2:288-305", "P3:96-128"]
+QUICK_TRUNC = [c for c in TRUNC if c.startswith("P0:")] + ["P2:64-96", "P2:128-160", "P2:224-256", "P2:288-305", "P3:96-128"] \
+    + [[c for c in TRUNC if c.startswith(k + ":")][-1] for k in ("P5", "P6", "P7")]
 
 HARNESSES = [
     {"fn": "h_short", "cases": ["any24", "PH16"], "opt": True, "timeout": {"quick": 60, "thorough": 300}},
@@ -66,12 +74,17 @@ HARNESSES = [
      "timeout": {"quick": 90, "thorough": 400}},
     {"fn": "h_corrupt", "cases": CORR_OPT, "quick_cases": [c for c in QUICK_CORR if c in CORR_OPT], "opt": True,
      "timeout": {"quick": 90, "thorough": 400}},
-    {"fn": "h_cli", "cases": ["trunc:P1", "junk", "good:P1", "corrupt:P2"], "quick_cases": ["trunc:P1", "junk"], "opt": True,
-     "timeout": {"quick": 90, "thorough": 300}},
+    {"fn": "h_cli", "cases": ["trunc:P1", "junk", "good:P1", "corrupt:P2", "corrupt:P2:214", "trunc:P5"],
+     "quick_cases": ["trunc:P1", "junk", "corrupt:P2:214", "trunc:P5"], "opt": True, "timeout": {"quick": 90, "thorough": 300}},
+    {"fn": "h_plugin", "cases": ["count0", "count1", "count2", "count3", "body"], "quick_cases": ["count0", "count3"],
+     "timeout": {"quick": 120, "thorough": 400}},
+    {"fn": "h_dir", "cases": ["after-good", "before-good"], "timeout": {"quick": 120, "thorough": 400}},
 ]
 BOUNDS = {"short": "all byte strings of length <= 24; 'PH' + 2 symbolic length bytes + 20 symbolic bytes",
-          "truncation": "every proper prefix (cut point symbolic, one solver-resolved path per offset) of 5 catalogue PELs "
-                        "covering every section type; both exit_on_error values",
+          "truncation": "every proper prefix (cut point symbolic, one solver-resolved path per offset) of 9 catalogue PELs "
+                        "covering every section type, each content-driven type also as the last section; both exit_on_error values",
+          "plugins": "a hardware-diagnostics signature list (shipped parser module) with each byte of its 32-bit count symbolic; "
+                     "-a over a directory with a truncated log before / after a good one",
           "corruption": "every single-byte corruption (offset symbolic per 8-byte window, replacement byte symbolic over "
                         "all 256 values) of PH+UH, SRC without and with callouts, EH, MT, UD, LP, ED and hexdump-only "
                         "sections (72 windows)", "interpreter": "python3-vt and python3-vt -O (all but 57 corruption windows in both)",
@@ -200,6 +213,9 @@ def h_cli() -> bool:
             for cand in range(len(P) - 40, len(P)):
                 if t == cand:
                     data = P[:cand]
+        elif what == "corrupt" and CASE.endswith(":214"):
+            v = sym_int("v", 0, 40)            # the PCE identity's size byte (values below 24 are 'too small')
+            data = mkbytes(P[:214], [v], P[215:])
         elif what == "corrupt":
             i = sym_int("i", 152, 159)
             v = sym_int("v", 0, 255)
@@ -242,3 +258,68 @@ def h_cli() -> bool:
     if what == "good":
         conds.append(len(rec.out) == 1 and status == 0)
     return verdict(sym_all(conds), obs={"status": status, "escaped": escaped, "stdout_items": len(rec.out), "stderr_items": len(rec.err)})
+
+
+def h_plugin() -> bool:
+    """
+    post: _
+    """
+    # corruption inside a section that a shipped parser module decodes (plugins enabled): still terminates promptly
+    from vlib.stubs import patched as _p
+    P = cat("P8")
+    base = len(P) - 28                     # offset of the signature list's count word
+    if CASE.startswith("count"):
+        k = int(CASE[5:])
+        v = sym_int("v", 0, 255)
+        data = mkbytes(P[:base + k], [v], P[base + k + 1:])
+    else:
+        i = sym_int("i", base + 4, len(P) - 1)
+        v = sym_int("v", 0, 255)
+        data = None
+        for cand in range(base + 4, len(P)):
+            if i == cand:
+                data = mkbytes(P[:cand], [v], P[cand + 1:])
+    fj, rec = FakeJson(), _Rec()
+    cfg = Config()
+    from pel.peltool import user_data, parse_user_data
+    from udparsers.oe500 import oe500
+    try:
+        with deadline(25 if SYMBOLIC else 10):
+            with patched(peltool, json=fj, prettyPrint=lambda t, *a, **k: t, print=rec), _p(user_data, json=fj), \
+                    _p(parse_user_data, json=fj), _p(oe500, json=fj):
+                eid, tok = peltool.parsePEL(DataStream(data, byte_order="big", is_signed=False), cfg, False)
+        kind = "doc" if hasattr(tok, "obj") else "empty"
+    except HangDetected as e:
+        kind = "hang"
+    except Exception as e:
+        kind = "exception"
+    return verdict(kind in ("doc", "exception"), obs={"kind": kind})
+
+
+def h_dir() -> bool:
+    """
+    post: _
+    """
+    # --all-pels over a directory: a truncated log is reported on stderr only - never shown as a (fabricated) document
+    from vlib.stubs import World, Namespace, ARG_DEFAULTS, run_main
+    good = pb.PEL(pb.SRC(ascii=b"BD8D1111"), ph=dict(eid=0x50000011))
+    full = cat("P2")
+    t = sym_int("t", 200, 230)
+    bad = None
+    for cand in range(200, 231):
+        if t == cand:
+            bad = full[:cand]
+    files = [("a_good", good), ("b_bad", bad)] if CASE == "after-good" else [("a_bad", bad), ("b_good", good)]
+    rev = bool(sym_bool("reverse"))
+    w = World(files=files)
+    ns = Namespace(**dict(ARG_DEFAULTS, path="/pels", all=True, reverse=rev, every_pel=True, skip_plugins=True))
+    try:
+        with deadline(30 if SYMBOLIC else 10):
+            status = run_main(peltool, w, ns)
+    except BaseException as e:
+        return verdict(False, obs={"escaped": repr(e)})
+    docs = [o.obj for o in w.stdout() if hasattr(o, "obj")]
+    conds = [status == 0, len(docs) == 1, len(w.stderr()) >= 1]
+    if len(docs) == 1:
+        conds.append(docs[0]["Private Header"]["Entry Id"] == "0x50000011")
+    return verdict(sym_all(conds), obs={"docs": [d["Private Header"]["Entry Id"] for d in docs], "status": status})
